@@ -7,6 +7,8 @@ CONSTANTS
   Dev = {}
   Ops <- MCOpsFull
   InitConds <- MCInitAll
+  InitNold <- MCNold0
+  InitRanks <- MCRankId
 VIEW view
 CHECK_DEADLOCK FALSE
 ACTION_CONSTRAINT Emit
